@@ -116,6 +116,12 @@ let () =
           (String.concat "," (List.map string_of_op (aba_progs O)))
           (String.concat "," (List.map string_of_op (aba_progs (S O))))
           (String.concat "," (List.map (fun t -> string_of_int (int_of_nat t)) aba_sched))
+      | "IN" :: "WITNESS2" :: _ ->
+        Printf.printf "OUT WITNESS2 k=%d init=%s p0=%s p1=%s sched=%s\n" (int_of_n aba_k)
+          (String.concat "," (List.map string_of_op (aba2_progs (nat_of_int 2))))
+          (String.concat "," (List.map string_of_op (aba2_progs O)))
+          (String.concat "," (List.map string_of_op (aba2_progs (S O))))
+          (String.concat "," (List.map (fun t -> string_of_int (int_of_nat t)) aba2_sched))
       | _ -> ()
     done
   with End_of_file -> ()
